@@ -357,3 +357,56 @@ def adapt_history_pyformat(t1: str, t2: str, p1: bool, p2: bool) -> bool:
     post: _
     """
     return ok(_history_body(t1, t2, 'pyformat', p1, p2))
+
+
+# ---------------------------------------------------------------------------------------------------------------------
+# raw_sql() fragments spliced into declarative queries: the generated SQL for a fragment must not depend on fragments
+# translated earlier at the same program location (translator cache keyed by the fragment's type)
+_qdb = None
+
+
+def _query_db():
+    global _qdb
+    if _qdb is None:
+        from engine import env as E0
+        from pony.orm import Required
+        _qdb = E0.mock_database('sqlite')
+        class RP(_qdb.Entity):
+            a = Required(int)
+        _qdb.generate_mapping(check_tables=False, create_tables=False)
+        core.time = lambda: 0.0          # QueryStat timestamps: keep the run deterministic under CrossHair
+    return _qdb
+
+
+def _clear_query_caches(db):
+    from pony.orm import decompiling
+    db._translator_cache.clear(); db._constructed_sql_cache.clear()
+    from pony.orm import asttranslation
+    ormtypes.raw_sql_cache.clear(); core.string2ast_cache.clear(); asttranslation.extractors_cache.clear()
+
+
+def _frag_sql(db, text, v):
+    from pony.orm import raw_sql, select
+    x = v
+    q = select(p for p in db.RP if raw_sql(text))        # ONE program location for every call
+    return q.get_sql()
+
+
+def fragment_history_ok(f1, f2):
+    """plain (untraced) two-step history: translate fragment f1, then f2 at the same program location; compare with a cold f2.
+    (Under CrossHair the whole translator does not finish inside the budget, so this family is enumerated concretely.)"""
+    from pony.orm import db_session, rollback
+    db = _query_db()
+    def run(text):
+        try:
+            with db_session:
+                try: return _frag_sql(db, text, 1)
+                finally: rollback()
+        except Exception as e:
+            return 'error:' + type(e).__name__
+    _clear_query_caches(db)
+    run(f1)
+    warm = run(f2)
+    _clear_query_caches(db)
+    cold = run(f2)
+    return warm == cold, warm, cold
